@@ -211,6 +211,32 @@ def run_cargo(ws, out, target, extra_env=None, wrapper=True, label="main", sub="
             "stderr_tail": p.stderr[-3000:]}
 
 
+REL_ENV0 = {"CARGO_PROFILE_DEV_BUILD_OVERRIDE_OVERFLOW_CHECKS": "false", "CARGO_PROFILE_DEV_BUILD_OVERRIDE_DEBUG_ASSERTIONS": "false"}
+
+
+def compare_expansions(d_dev, d_rel, crates):
+    """per positive crate: {"same": bool, "lines": n} or the first differing line"""
+    res = {}
+    for c in crates:
+        a = os.path.join(d_dev, c + ".rs")
+        b = os.path.join(d_rel, c + ".rs")
+        if not (os.path.exists(a) and os.path.exists(b)):
+            res[c] = {"same": None, "why": "expansion missing"}
+            continue
+        with open(a, errors="replace") as fa, open(b, errors="replace") as fb:
+            la = fa.read().splitlines()
+            lb = fb.read().splitlines()
+        if not la or not lb:
+            res[c] = {"same": None if la == lb else False, "why": "empty expansion", "lines": len(la)}
+            continue
+        if la == lb:
+            res[c] = {"same": True, "lines": len(la)}
+            continue
+        n = next((i for i, (x, y) in enumerate(zip(la, lb)) if x != y), min(len(la), len(lb)))
+        res[c] = {"same": False, "line": n + 1, "dev": (la[n] if n < len(la) else "<end>")[:200], "rel": (lb[n] if n < len(lb) else "<end>")[:200], "lines": len(la)}
+    return res
+
+
 def build(tier, seed, verbose=True):
     ensure_tools()
     key = tree_key(tier, seed)
@@ -261,10 +287,29 @@ def build(tier, seed, verbose=True):
                                         kwargs={"wrapper": False, "sub": "build",
                                                 "extra_env": {"CARGO_PROFILE_DEV_BUILD_OVERRIDE_OVERFLOW_CHECKS": "false",
                                                               "CARGO_PROFILE_DEV_BUILD_OVERRIDE_DEBUG_ASSERTIONS": "false"}}))
+    # the generator's output must not depend on the profile the generator itself is built with (a `--release` build
+    # of a user crate builds the macro without debug assertions / overflow checks): expand the positive workspace
+    # with the macro built both ways and compare the expansions text for text
+    exp_dirs = {}
+    for lab, xenv in (("expand_dev", None), ("expand_rel", REL_ENV0)):
+        ed = os.path.join(out, lab)
+        os.makedirs(ed, exist_ok=True)
+        exp_dirs[lab] = ed
+        e2 = {"RUSTC_WORKSPACE_WRAPPER": os.path.join(HERE, "expand_wrapper.sh"), "VERIF_EXPAND_OUT": ed, "RUSTFLAGS": "-Awarnings"}
+        if xenv:
+            e2.update(xenv)
+        threads.append(threading.Thread(target=job, args=(lab, ws, os.path.join(out, lab + "_facts"), os.path.join(out, "target_" + lab)),
+                                        kwargs={"wrapper": False, "sub": "check", "extra_env": e2}))
     for t in threads:
         t.start()
     for t in threads:
         t.join()
+    expand_diff = compare_expansions(exp_dirs["expand_dev"], exp_dirs["expand_rel"], [c.name for c in pos])
+    for lab in exp_dirs:
+        shutil.rmtree(exp_dirs[lab], ignore_errors=True)
+        shutil.rmtree(os.path.join(out, "target_" + lab), ignore_errors=True)
+        shutil.rmtree(os.path.join(out, lab + "_facts"), ignore_errors=True)
+        results.pop(lab, None)
     # localise build failures of positive crates: quarantine the items that own the errors and rebuild
     # only the affected crates, so every other obligation still gets a verdict (DESIGN.md section 2)
     by_name = {c.name: c for c in pos}
@@ -448,7 +493,7 @@ def build(tier, seed, verbose=True):
         json.dump(model, f)
     with open(os.path.join(out, "runs.json"), "w") as f:
         json.dump(runs, f)
-    meta = {"key": key, "tier": tier, "seed": seed, "harvested": harvested, "build_wall_s": round(time.time() - t0, 2),
+    meta = {"key": key, "tier": tier, "seed": seed, "harvested": harvested, "build_wall_s": round(time.time() - t0, 2), "expand_diff": expand_diff,
             "crates": [c.name for c in crates]}
     with open(os.path.join(out, "meta.json"), "w") as f:
         json.dump(meta, f)
